@@ -51,7 +51,7 @@ def register(claim, not_yet):
     claim('C05',
           'Proved for all lengths, filters, cotangents: strided correlation and transposed convolution are mutual adjoints; AFB1D.backward in mode zero (sfb1d + crop) satisfies '
           '<forward x, g> = <x, backward g>, and in periodization for every length N >= 1 (odd included: the gradient of the repeated last sample is folded back) and even L <= N + N%2 '
-          '(afb_per_adjoint, from the circular transpose theorem). TWO DIMENSIONS, mode zero: one-dimensional pair adjointness lifts along the columns and along the rows of an image (C05D.pairH, pairW), and the code path - row pass then column pass forward; column synthesis of the two band pairs, row synthesis, one crop per axis at the very end backward (AFB2D_forward_val, AFB2D_backward_val) - satisfies <ll,gll> + <lh,glh> + <hl,ghl> + <hh,ghh> = <x, AFB2D.backward(g)> for every image size and filter lengths (AFB2D_zero_adjoint). The padded modes, periodization in 2-D and the channel stacks are decided by the exact correspondence of the four autograd Functions backward passes (all requires_grad masks) and by the Jacobian '
+          '(afb_per_adjoint, from the circular transpose theorem). TWO DIMENSIONS, mode zero: one-dimensional pair adjointness lifts along the columns and along the rows of an image (C05D.pairH, pairW), and the code path - row pass then column pass forward; column synthesis of the two band pairs, row synthesis, one crop per axis at the very end backward (AFB2D_forward_val, AFB2D_backward_val) - satisfies <ll,gll> + <lh,glh> + <hl,ghl> + <hh,ghh> = <x, AFB2D.backward(g)> for every image size and filter lengths (AFB2D_zero_adjoint). TWO DIMENSIONS, periodization: the same identity for every image size, odd sizes included (the gradient of the repeated last row / column is folded back once per axis at the very end, which commutes with the row synthesis because the synthesis is additive in the band pair - C05P.idwt_per_add), and even filter lengths L <= size + size % 2 per axis (C05P.AFB2D_per_adjoint; the complement of the recorded short-level finding). The padded modes in 2-D and the channel stacks are decided by the exact correspondence of the four autograd Functions backward passes (all requires_grad masks) and by the Jacobian '
           'oracle J^T g on the four modules; the non-adjoint backward passes of symmetric/reflect/periodic (pinned by baseline tests) and short periodization are known findings with '
           'decide-checked witnesses.' + TIE + BRK,
           'Lean 4 adjointness theorems (inner-product identities) + exact autograd correspondence + Jacobian oracle', 'DESIGN.md §4 C05')
